@@ -174,7 +174,8 @@ def _iter_rows_with_delimiter(filepath, delimiter, has_header):
                     continue
                 match = pattern.match(line)
                 if match:
-                    yield list(match.groups())
+                    # A group that did not take part in the match is an empty cell
+                    yield [g if g is not None else '' for g in match.groups()]
         elif delimiter and len(delimiter) == 1:
             reader = csv.reader(f, delimiter=delimiter)
             if has_header:
